@@ -320,6 +320,15 @@ let c17_parse_txs (arena : bytes) (views : string) : string =
   let ((d, res), _log) = mem_parse_txs_run arena (c17_views views) in
   c17_diff d ^ ";" ^ show_outcome (show_list hex_of_bytes) res
 (* C17 end *)
+(* C17commit begin: the commit / re-write paths on the explicit-memory model (Model/MemCommit.v).
+   [fixed] = false runs the `append(view, ...)` variant of the leaf construction / of Write. *)
+let c17_commit_leaves (fixed : bool) (arena : bytes) (views : string) (thr : n) : string =
+  let (d, res) = mem_commit_run fixed sha256 thr arena (c17_views views) in
+  c17_diff d ^ ";" ^ show_outcome (show_list (show_list hex_of_bytes)) res
+let c17_sparse_write (fixed : bool) (arena : bytes) (views : string) : string =
+  let (d, res) = mem_sparse_write_run fixed arena (c17_views views) in
+  c17_diff d ^ ";" ^ show_outcome (show_list (show_list hex_of_bytes)) res
+(* C17commit end *)
 
 let run (op : string) (a : string array) : string =
   let arg i = a.(i) in
@@ -451,6 +460,23 @@ let run (op : string) (a : string array) : string =
   | "memparseblobslegacy" -> c17_parse_blobs false (h 0) (arg 1)
   | "memparsetxs" -> c17_parse_txs (h 0) (arg 1)
   (* C17 end *)
+  (* C17commit begin *)
+  | "memcommitleaves" -> c17_commit_leaves true (h 0) (arg 1) (n 2)
+  | "memcommitleaveslegacy" -> c17_commit_leaves false (h 0) (arg 1) (n 2)
+  | "memsparsewrite" -> c17_sparse_write true (h 0) (arg 1)
+  | "memsparsewritelegacy" -> c17_sparse_write false (h 0) (arg 1)
+  (* C17commit end *)
+  (* C19json begin: JSON text layer (the texts travel as hex) *)
+  | "blobjson" -> hex_of_bytes (marshal_blob_json (blob_of_string (arg 0)))
+  | "blobunjson" -> show_outcome show_blob (unmarshal_blob_json (h 0))
+  | "sharejson" -> hex_of_bytes (marshal_share_json (h 0))
+  | "shareunjson" -> show_outcome hex_of_bytes (unmarshal_share_json (h 0))
+  | "nsjson" -> hex_of_bytes (marshal_namespace_json (h 0))
+  | "nsunjson" -> show_outcome hex_of_bytes (unmarshal_namespace_json (h 0))
+  | "jsonsubset" -> show_bool (json_in_subset (h 0))
+  | "b64enc" -> hex_of_bytes (base64_encode (h 0))
+  | "b64dec" -> (match base64_decode (h 0) with Some b -> "ok:" ^ hex_of_bytes b | None -> "err")
+  (* C19json end *)
   | _ -> failwith ("unknown op " ^ op)
 
 let () =
